@@ -106,6 +106,9 @@ func runSectionIO(in []int64) []int64 {
 		off, n := rest[2*i], rest[2*i+1]
 		obs = append(obs, Guard(func() []int64 {
 			b := make([]byte, n)
+			for j := range b { // a used buffer: padding must be written as zeros, not skipped
+				b[j] = 0xA5
+			}
 			k, err := p.Data.ReadAt(b, off)
 			o := []int64{0, b2i(err != nil), int64(k)}
 			for _, c := range b[:k] {
